@@ -475,7 +475,11 @@ func (m *monitor) run(line string) string {
 	}
 	// O5
 	m.checksBy["O5"]++
-	if prev.wealth().Cmp(o.wealth()) != 0 && t[0] == "vmunstake" && new(big.Int).Mod(u(t[3]), e18big).Sign() != 0 && !m.crafted {
+	// UNSTAKE escrows the REQUESTED wei amount for tx.origin whatever the stake actually dropped by: the recorded class is
+	// exactly "wealth grew, by no more than the requested amount, in a vmunstake whose amount is not what was released"
+	// (fractional tokens, or MaxUint64 whole tokens = "everything")
+	growth := new(big.Int).Sub(o.wealth(), prev.wealth())
+	if t[0] == "vmunstake" && growth.Sign() > 0 && growth.Cmp(u(t[3])) <= 0 && !m.collided("") {
 		m.report("unstake-opcode-escrows-untruncated-amount", fmt.Sprintf("%s => %s: liquid+staked+escrow+pending %s -> %s", line, res, prev.wealth(), o.wealth()))
 	} else if prev.wealth().Cmp(o.wealth()) != 0 {
 		m.report(m.classify("conservation", lost && res == "ok", false), fmt.Sprintf("%s => %s: liquid+staked+escrow+pending %s -> %s", line, res, prev.wealth(), o.wealth()))
@@ -722,6 +726,8 @@ func runSearch(out *hx.Out, r *hx.Rng, thorough bool) {
 			}
 		}
 	}
+	// deterministic 64-bit boundary lattice first (real-size balances: a huge add-stake is rejected for balance)
+	latticeFamily(runS, false)
 	// deterministic small-scope family before the random episodes: every sequence of `depth` operations over a
 	// small alphabet (two ids, two accounts, boundary amounts), each followed by a block end
 	{
